@@ -43,7 +43,8 @@ SeqSetC(sq) == {sq[j] : j \in 1..Len(sq)}
 CallDevs == {"Dev_ArrowThis", "Dev_ArrowArguments", "Dev_NonConstructorNew", "Dev_NewBound", "Dev_BindOfBound",
              "Dev_FnNameInference", "Dev_BoundName", "Dev_NativeFn", "Dev_NewReturnFn",
              "Dev_FnProtoAssign", "Dev_FnProtoNoObjectProto",
-             "Dev_NativeThis", "Dev_ToStringFnClass", "Dev_FnNotObject", "Dev_PrimitiveNoProto", "Dev_ArrayAccessors"}
+             "Dev_NativeThis", "Dev_ToStringFnClass", "Dev_FnNotObject", "Dev_PrimitiveNoProto", "Dev_ArrayAccessors",
+             "Dev_EnumSkipsAccessors", "Dev_KeyNoToPrimitive"}
 
 ThisOf(form) == CASE form = "method" -> "@recv" [] form = "plain" -> "u" [] form \in {"call", "apply", "bind"} -> "@x1"
                   [] form = "new" -> "@?" [] form = "arrow" -> "@recv"
@@ -159,7 +160,6 @@ Tier == EnvOr("TIER", "thorough")
 TCells == {c \in TCellsAll : /\ TApplicable(c.via, c.ret)
                              /\ (Tier # "quick" \/ c.kind \in {"decl", "arrow", "bound", "native"}
                                  \/ c.ret \in {"obj", "zero", "empty", "null", "absent"})}
-Cells == TableCells \cup TCells
 
 TVal(tk) == CASE tk = "obj" -> "@x1" [] tk = "arr" -> "@ra" [] tk = "fn" -> "@rf" [] tk = "num" -> "n3" [] tk = "str" -> "'a"
               [] tk = "true" -> "true" [] tk = "zero" -> "n0" [] tk = "negzero" -> "n-0" [] tk = "empty" -> "'"
@@ -249,6 +249,175 @@ TVLaws(c) ==
      /\ (c.via \in NoThisVias /\ c.kind \notin {"arrow", "bound", "native"} => me["this"] = P("u"))
      /\ (c.kind = "native" /\ TReached(c.via, c.ret) => me["cls"] = P(TClassOf(TGiven(c.via, c.ret))))
 
+\* ==============================================================================================
+\* Part D: the KIND of the value a computed key evaluates to  x  every site that turns a key into a property name.
+\* Parts A-C write computed keys whose value is a string.  A key may be any value: ToPropertyKey converts it ONCE to a
+\* property name, and every site that takes a key (member read / write / delete / update / compound assignment, the
+\* computed key of an object literal - data or accessor -, defineProperty, getOwnPropertyDescriptor, `in`, both
+\* hasOwnProperty routes) and every site that hands names out (keys / values / entries / for-in) must agree on that name.
+\* A cell is a history of two steps on  o = {z: 0}  and  q = Object.create(o)  (made after step 1), the whole
+\* battery being observed after each step:
+\*   step 1 (write site w, key spelled sp):  set o[K] = 1 | lit o = {z: 0, [K]: 1} | def defineProperty(o, K, {value: 1})
+\*          | litget o = {z: 0, get [K](){ return 7 }} | defget defineProperty(o, K, {get: function(){ return 7 }})
+\*   step 2 (ret):  none | set o[K] = 5 | setS o[S] = 5 | inc o[K]++ | add o[K] += 2 | del delete o[K] | delS delete o[S]
+\*          | def / defS defineProperty(o, K / S, {value: 6}) | qset q[K] = 4 | qdel delete q[K]
+\*   spelling sp: "var" the key value sits in the variable K; "inline" the key expression is written in place (o[1 < 2]).
+\*   S is the canonical name KName(kind) as a string: the driver receives it from this specification.
+\* Driver: checks/c08_driver.py key_driver (the JavaScript expression of each key kind is its rendering table KEY_EXPR).
+KKinds == {"str", "empty", "numstr", "str01", "strneg0", "int", "zero", "negzero", "neg", "frac", "floatint", "bigint",
+           "nan", "inf", "ninf", "true", "false", "cmp", "null", "undef", "arr0", "arr1", "arrs", "arr2", "obj", "objts"}
+KName(kk) == CASE kk \in {"str", "arrs", "objts"} -> "a"          \* 'a' | ['a'] | {toString(){ return 'a' }}
+               [] kk \in {"empty", "arr0"} -> ""                  \* '' | []
+               [] kk \in {"numstr", "int", "floatint", "arr1"} -> "1"   \* '1' | 1 | 2 / 2 | [1]
+               [] kk = "str01" -> "01"  [] kk = "strneg0" -> "-0"  \* strings are names as they are (not canonical numbers)
+               [] kk \in {"zero", "negzero"} -> "0"               \* 0 | -0
+               [] kk = "neg" -> "-1"  [] kk = "frac" -> "1.5"  [] kk = "bigint" -> "4294967296"
+               [] kk = "nan" -> "NaN"  [] kk = "inf" -> "Infinity"  [] kk = "ninf" -> "-Infinity"
+               [] kk \in {"true", "cmp"} -> "true"                \* true | 1 < 2
+               [] kk = "false" -> "false"  [] kk = "null" -> "null"  [] kk = "undef" -> "undefined"
+               [] kk = "arr2" -> "1,2"  [] kk = "obj" -> "[object Object]"
+KIntLike == {"0", "1", "4294967296"}       \* integer-like names: ES enumerates them first, the documented contract is silent (DESIGN 4.4(2))
+KDataWrites == {"set", "lit", "def"}
+KAccWrites == {"litget", "defget"}
+KWrites == KDataWrites \cup KAccWrites
+KSpells == {"var", "inline"}
+KSeconds == {"none", "set", "setS", "inc", "add", "del", "delS", "def", "defS", "qset", "qdel"}
+KAccSeconds == {"none", "del", "delS", "def", "defS", "qdel"}     \* a getter-only accessor is not assigned to (that rule is Part A's)
+KVia(w, sp) == w \o "." \o sp
+KWOf(via) == CHOOSE w \in KWrites : \E sp \in KSpells : via = KVia(w, sp)
+KSpOf(via) == CHOOSE sp \in KSpells : \E w \in KWrites : via = KVia(w, sp)
+KApplicable(w, sec) == w \in KDataWrites \/ sec \in KAccSeconds
+KShapesAll == {sh \in KWrites \X KSpells \X KSeconds : KApplicable(sh[1], sh[3])}        \* <<write site, spelling, second step>>
+\* quick: every key kind with each of these shapes: every write site in both spellings and every second step occur
+\* with every key kind (KGridLaw), not their full product
+KQuickShapes == {<<"set", "var", x>> : x \in {"setS", "inc", "del", "defS", "qset"}}
+           \cup {<<"lit", "var", x>> : x \in {"set", "add", "delS", "def", "qdel"}}
+           \cup {<<"def", "var", x>> : x \in {"set", "del", "none"}}
+           \cup {<<"litget", "var", "del">>, <<"defget", "var", "defS">>}
+           \cup {<<"set", "inline", "del">>, <<"lit", "inline", "inc">>, <<"def", "inline", "setS">>,
+                 <<"litget", "inline", "delS">>, <<"defget", "inline", "def">>}
+KShapes == IF Tier = "quick" THEN KQuickShapes ELSE KShapesAll
+KCells == {[form |-> "key", kind |-> kk, ret |-> sh[3], via |-> KVia(sh[1], sh[2])] : kk \in KKinds, sh \in KShapes}
+KGridLaw == /\ KShapes \subseteq KShapesAll
+            /\ \A w \in KWrites : \A sp \in KSpells : \E sh \in KShapes : sh[1] = w /\ sh[2] = sp
+            /\ \A sec \in KSeconds : \E sh \in KShapes : sh[3] = sec
+            /\ \A sec \in KAccSeconds \ {"none", "qdel"} : \E sh \in KShapes : sh[1] \in KAccWrites /\ sh[3] = sec
+ASSUME KGridLaw
+
+\* ---- the reference model: own properties of o and of q, in creation order ---------------------------------------
+KeyDevs == {"Dev_EnumSkipsAccessors", "Dev_KeyNoToPrimitive"}
+KEnt(k, v, acc) == [k |-> k, v |-> v, acc |-> acc]
+KIdx(own, nm) == IF \E j \in 1..Len(own) : own[j].k = nm THEN CHOOSE j \in 1..Len(own) : own[j].k = nm ELSE 0
+KUpd(own, nm, v) == LET j == KIdx(own, nm) IN IF j = 0 THEN Append(own, KEnt(nm, v, FALSE)) ELSE [own EXCEPT ![j] = KEnt(nm, v, FALSE)]
+KDel(own, nm) == SelectSeq(own, LAMBDA e : e.k # nm)
+KVal(own, nm) == LET j == KIdx(own, nm) IN IF j = 0 THEN "u" ELSE own[j].v
+\* the name a site computes from the key, by route: K (the value in a variable), I (the expression in place), S (the
+\* canonical name as a string).  As-is (Dev_KeyNoToPrimitive): an object's own toString is not consulted.
+KNameBy(kk, r, dv) == IF r # "S" /\ kk = "objts" /\ "Dev_KeyNoToPrimitive" \in dv THEN "[object Object]" ELSE KName(kk)
+KPlus(v, n) == IF v = "n1" THEN (IF n = 1 THEN "n2" ELSE "n3") ELSE "nnan"
+KState1(kk, w, dv) ==
+  [o |-> <<KEnt("z", "n0", FALSE), KEnt(KNameBy(kk, "K", dv), IF w \in KAccWrites THEN "n7" ELSE "n1", w \in KAccWrites)>>, q |-> <<>>]
+KState2(st, kk, sec, dv) ==
+  LET nk == KNameBy(kk, "K", dv)
+      ns == KNameBy(kk, "S", dv)
+  IN CASE sec = "none" -> st
+       [] sec = "set"  -> [st EXCEPT !.o = KUpd(st.o, nk, "n5")]
+       [] sec = "setS" -> [st EXCEPT !.o = KUpd(st.o, ns, "n5")]
+       [] sec = "inc"  -> [st EXCEPT !.o = KUpd(st.o, nk, KPlus(KVal(st.o, nk), 1))]
+       [] sec = "add"  -> [st EXCEPT !.o = KUpd(st.o, nk, KPlus(KVal(st.o, nk), 2))]
+       [] sec = "del"  -> [st EXCEPT !.o = KDel(st.o, nk)]
+       [] sec = "delS" -> [st EXCEPT !.o = KDel(st.o, ns)]
+       [] sec = "def"  -> [st EXCEPT !.o = KUpd(st.o, nk, "n6")]
+       [] sec = "defS" -> [st EXCEPT !.o = KUpd(st.o, ns, "n6")]
+       [] sec = "qset" -> [st EXCEPT !.q = KUpd(st.q, nk, "n4")]          \* a write creates an own property of the receiver only
+       [] sec = "qdel" -> [st EXCEPT !.q = KDel(st.q, nk)]
+KStateAt(c, dv, stage) == LET s1 == KState1(c.kind, KWOf(c.via), dv) IN IF stage = 1 THEN s1 ELSE KState2(s1, c.kind, c.ret, dv)
+
+\* observations: each aspect -> the SET of acceptable value strings (a list is joined with "|")
+KJoin(sq) == IF sq = <<>> THEN "" ELSE FoldLeft(LAMBDA acc, e : acc \o "|" \o e, Head(sq), Tail(sq))
+KPerms(sq) == LET n == Len(sq) IN
+              {[j \in 1..n |-> sq[p[j]]] : p \in {f \in [1..n -> 1..n] : \A x, y \in 1..n : x # y => f[x] # f[y]}}
+KList(ents, how) ==
+  LET items == [j \in 1..Len(ents) |-> CASE how = "k" -> "'" \o ents[j].k [] how = "v" -> ents[j].v
+                                         [] how = "e" -> "['" \o ents[j].k \o "," \o ents[j].v \o "]"]
+  IN IF Len(ents) > 1 /\ \E j \in 1..Len(ents) : ents[j].k \in KIntLike THEN {KJoin(p) : p \in KPerms(items)} ELSE {KJoin(items)}
+KBattery == <<"out", "rdK", "rdI", "rdS", "inK", "inI", "inS", "ownK", "ownI", "ownM", "ownS", "gdK", "gdS", "keys", "forin", "vals", "ents",
+              "z", "qrdK", "qinK", "qownK", "qkeys">>
+KObs(st, kk, dv, a) ==
+  LET nk == KNameBy(kk, "K", dv)
+      ni == KNameBy(kk, "I", dv)
+      ns == KNameBy(kk, "S", dv)
+      has(own, nm) == KIdx(own, nm) # 0
+      gd(nm) == LET j == KIdx(st.o, nm) IN IF j = 0 THEN "'nod" ELSE IF st.o[j].acc THEN "'acc" ELSE st.o[j].v
+      vis == IF "Dev_EnumSkipsAccessors" \in dv THEN SelectSeq(st.o, LAMBDA e : ~e.acc) ELSE st.o
+  IN CASE a = "out" -> {"ok"}
+       [] a = "rdK" -> {KVal(st.o, nk)}  [] a = "rdI" -> {KVal(st.o, ni)}  [] a = "rdS" -> {KVal(st.o, ns)}
+       [] a = "inK" -> {BoolV(has(st.o, nk))}  [] a = "inI" -> {BoolV(has(st.o, ni))}  [] a = "inS" -> {BoolV(has(st.o, ns))}
+       [] a \in {"ownK", "ownM"} -> {BoolV(has(st.o, nk))}  [] a = "ownI" -> {BoolV(has(st.o, ni))}  [] a = "ownS" -> {BoolV(has(st.o, ns))}
+       [] a = "gdK" -> {gd(nk)}  [] a = "gdS" -> {gd(ns)}
+       [] a \in {"keys", "forin"} -> KList(vis, "k")  [] a = "vals" -> KList(vis, "v")  [] a = "ents" -> KList(vis, "e")
+       [] a = "z" -> {KVal(st.o, "z")}
+       [] a = "qrdK" -> {IF has(st.q, nk) THEN KVal(st.q, nk) ELSE KVal(st.o, nk)}
+       [] a = "qinK" -> {BoolV(has(st.q, nk) \/ has(st.o, nk))}
+       [] a = "qownK" -> {BoolV(has(st.q, nk))}
+       [] a = "qkeys" -> KList(st.q, "k")
+KExp(c, dv, stage, a) == KObs(KStateAt(c, dv, stage), c.kind, dv, a)
+KStages(c) == IF c.ret = "none" THEN <<1>> ELSE <<1, 2>>
+
+\* laws of the key table (model-checked over all its cells)
+KeyLaws(c) ==
+  LET w == KWOf(c.via)
+      E(st, a) == KExp(c, {}, st, a)
+      other(c2, st) == \A j \in 1..Len(KBattery) : KExp(c2, {}, st, KBattery[j]) = E(st, KBattery[j])
+      oasp == {"rdK", "rdI", "rdS", "inK", "inI", "inS", "ownK", "ownI", "ownM", "ownS", "gdK", "gdS", "keys", "forin", "vals", "ents", "z"}
+  IN /\ \A j \in 1..Len(KBattery) : \A st \in 1..2 : KExp(c, {}, st, KBattery[j]) # {}
+     /\ \A st \in 1..2 :
+          \* one property, whatever the route ...
+          /\ E(st, "rdK") = E(st, "rdI") /\ E(st, "rdK") = E(st, "rdS")
+          /\ E(st, "inK") = E(st, "inI") /\ E(st, "inK") = E(st, "inS")
+          /\ E(st, "ownK") = E(st, "ownI") /\ E(st, "ownK") = E(st, "ownM") /\ E(st, "ownK") = E(st, "ownS") /\ E(st, "gdK") = E(st, "gdS")
+          \* ... listed under its canonical name exactly when it is an own property
+          /\ (E(st, "ownK") = {"true"}) <=> (\E x \in E(st, "keys") : x \in {"'z|'" \o KName(c.kind), "'" \o KName(c.kind) \o "|'z"})
+          /\ E(st, "keys") = E(st, "forin") /\ (E(st, "ownK") = {"true"} => E(st, "inK") = {"true"})
+          /\ (E(st, "inK") = {"false"} => E(st, "rdK") = {"u"}) /\ E(st, "z") = {"n0"}
+          \* the same table for every write site of its class, for both spellings, and for every key kind with the same name
+          /\ \A w2 \in (IF w \in KDataWrites THEN KDataWrites ELSE KAccWrites) : \A sp \in KSpells : other([c EXCEPT !.via = KVia(w2, sp)], st)
+          /\ \A k2 \in KKinds : KName(k2) = KName(c.kind) => other([c EXCEPT !.kind = k2], st)
+     \* the canonical string names the same property as the key value
+     /\ (c.ret = "setS" => other([c EXCEPT !.ret = "set"], 2)) /\ (c.ret = "delS" => other([c EXCEPT !.ret = "del"], 2))
+     /\ (c.ret = "defS" => other([c EXCEPT !.ret = "def"], 2))
+     \* a write to / delete on the child changes nothing on o; a delete removes the property for every route
+     /\ (c.ret \in {"qset", "qdel", "none"} => \A a \in oasp : E(2, a) = E(1, a))
+     /\ (c.ret \in {"del", "delS"} => E(2, "inK") = {"false"} /\ E(2, "ownS") = {"false"} /\ E(2, "keys") = {"'z"} /\ E(2, "qinK") = {"false"})
+     /\ (c.ret = "qset" => E(2, "qownK") = {"true"} /\ E(2, "qrdK") = {"n4"} /\ E(2, "rdK") = E(1, "rdK"))
+     \* a deviation only ever changes what it names
+     /\ \A st \in 1..2 : \A j \in 1..Len(KBattery) :
+          /\ (c.kind # "objts" => KExp(c, {"Dev_KeyNoToPrimitive"}, st, KBattery[j]) = E(st, KBattery[j]))
+          /\ (w \in KDataWrites => KExp(c, {"Dev_EnumSkipsAccessors"}, st, KBattery[j]) = E(st, KBattery[j]))
+
+\* judge of a key cell: record [id, cell, obs : [b1 : [aspect |-> value], b2 : ...], dv]
+KAct(rec, stage, a) == LET b == IF stage = 1 THEN "b1" ELSE "b2"
+                       IN IF b \in DOMAIN rec.obs THEN (IF a \in DOMAIN rec.obs[b] THEN rec.obs[b][a] ELSE "missing") ELSE "missing"
+KeyVerdict(rec) ==
+  LET c == rec.cell
+      dv == SeqSetC(rec.dv) \cap KeyDevs
+      stages == KStages(c)
+      nb == Len(KBattery)
+      one(stage, a) ==
+        LET act == KAct(rec, stage, a)
+            ref == KExp(c, {}, stage, a)
+            good == {S \in SUBSET dv : S # {} /\ act \in KExp(c, S, stage, a)}
+            lab == ToString(stage) \o ":" \o a
+            exp == CHOOSE x \in ref : TRUE
+        IN IF act \in ref THEN [aspect |-> lab, v |-> "pass", dev |-> "", exp |-> exp, act |-> act]
+           ELSE IF good # {}
+                THEN LET S == CHOOSE S \in good : \A T \in good : Cardinality(S) <= Cardinality(T)
+                     IN [aspect |-> lab, v |-> "known", dev |-> CHOOSE d \in S : TRUE, exp |-> exp, act |-> act]
+           ELSE [aspect |-> lab, v |-> "violation", dev |-> "", exp |-> exp, act |-> act]
+      all == [j \in 1..(Len(stages) * nb) |-> one(stages[((j - 1) \div nb) + 1], KBattery[((j - 1) % nb) + 1])]
+  IN [id |-> rec.id, mis |-> SelectSeq(all, LAMBDA r : r.v # "pass"), n |-> Len(all)]
+
+Cells == TableCells \cup TCells \cup KCells
 CellRef(c) == IF c.form = "tv" THEN RefTV(c.via, c.kind, c.ret) ELSE IF c.form = "chain" THEN RefChain(c.kind) ELSE IF c.form = "newret" THEN RefRet(c.ret, c.kind) ELSE RefCell(c.form, c.kind)
 CellAsIs(c, dv) == IF c.form = "tv" THEN AsIsTV(c.via, c.kind, c.ret, dv) ELSE IF c.form = "chain" THEN AsIsChain(c.kind, dv) ELSE IF c.form = "newret" THEN AsIsRet(c.ret, c.kind, dv)
                    ELSE AsIsCell(c.form, c.kind, dv)
@@ -268,9 +437,14 @@ CallLaws(c) ==
         /\ (c.form = "new" /\ r["out"] = P("ok") => r["linked"] = P("true") /\ r["inst"] = P("true"))
         /\ (c.form = "plain" /\ c.kind \in {"decl", "expr", "named", "method", "propfn", "getter"} => r["this"] = P("u")))
 
-CInit == MInit /\ c_cell \in Cells /\ PrintT(ToJson(c_cell))
+\* a key cell is printed with the canonical name and its write site / spelling (the driver renders, it does not convert)
+CInit == /\ MInit /\ c_cell \in Cells
+         /\ PrintT(ToJson(IF c_cell.form = "key"
+                          THEN [form |-> c_cell.form, kind |-> c_cell.kind, ret |-> c_cell.ret, via |-> c_cell.via,
+                                name |-> KName(c_cell.kind), w |-> KWOf(c_cell.via), sp |-> KSpOf(c_cell.via)]
+                          ELSE c_cell))
 CNext == UNCHANGED <<c_cell, m_vars>>
-CLawsHold == CallLaws(c_cell)
+CLawsHold == IF c_cell.form = "key" THEN KeyLaws(c_cell) ELSE CallLaws(c_cell)
 
 \* judge: records [id, cell, obs, dv]
 ActOf(rec, a) ==
@@ -309,5 +483,5 @@ CellVerdict(rec) ==
   IN [id |-> rec.id, mis |-> SelectSeq(all, LAMBDA r : r.v # "pass"), n |-> Len(judged)]
 CJudgeInit == /\ MInit
               /\ LET all == ndJsonDeserialize(IOEnv.OBS_FILE) IN
-                 \E j \in 1..Len(all) : c_cell = all[j].cell /\ PrintT(ToJson(CellVerdict(all[j])))
+                 \E j \in 1..Len(all) : c_cell = all[j].cell /\ PrintT(ToJson(IF all[j].cell.form = "key" THEN KeyVerdict(all[j]) ELSE CellVerdict(all[j])))
 =============================================================================
